@@ -686,6 +686,24 @@ def reject_not_repair(repo: Repo) -> RuleRun:
                         key=f"clamped-result:{(attr_chain(c.func) or '').split('.')[-1]}",
                     )
     r.require(n >= 5, f"only {n} log/sqrt calls found in grading.relations")
+    # ... nor is the RESULT of a relation forced into a range: a cell-to-cell ratio of 0.5 over 25 cells IS a total expansion of 6e-8;
+    # handing out 1e-7 instead writes a grading whose cells do not follow the requested ratio
+    for fn in relation_functions(repo):
+        defs = {}
+        for st in ast.walk(fn.node):
+            if isinstance(st, ast.Assign) and len(st.targets) == 1 and isinstance(st.targets[0], ast.Name):
+                defs.setdefault(st.targets[0].id, []).append(st.value)
+        k = 0
+        for st in walk_shallow(fn.node):
+            if isinstance(st, ast.Return) and st.value is not None:
+                val = st.value
+                if isinstance(val, ast.Name) and len(defs.get(val.id, [])) == 1:
+                    val = defs[val.id][0]
+                top = val
+                clamp = isinstance(top, ast.Call) and (attr_chain(top.func) or "").split(".")[-1] in ("min", "max", "clip", "minimum", "maximum") and len(top.args) >= 2
+                if clamp and not all(isinstance(a, ast.Constant) for a in top.args):
+                    r.bad(fn, f"{fn.qualname}: the result '{ast.unparse(top)[:80]}' is forced into a range: what the formula gives for the requested parameters is replaced by a bound - the written expansion no longer reproduces the given count and ratio", st, key=f"clamped-return#{k}")
+                    k += 1
     return r
 
 
@@ -1188,4 +1206,78 @@ def single_cell(repo: Repo) -> RuleRun:
 single_cell.rule_id = "C03.SINGLE-CELL"
 
 
-RULES = [registry_agreement, closure, invert_complete, validation_siblings, dimensions, bracket_siblings, unit_ratio_tests, copy_well_posed, no_stale_lazy_cache, reject_not_repair, no_memo, solver_tolerance, no_rounding, ratio_rejection, count_rounds_up, count_integral, shortcut_exact, single_cell]
+# --------------------------------------------------------------------------------------------
+def calculate_pure(repo: Repo) -> RuleRun:
+    """'Reversing a chop yields the same count and the reciprocal expansion': Chop.calculate(length) is a function of the length and
+    of the chop's own parameters as they are NOW (invert() changes them). It therefore reads nothing it wrote itself in an earlier
+    call: every attribute of self read in calculate is a declared parameter of the chop, and `results` is rebuilt before it is
+    read. A remembered length / result ('each wire asks for the same numbers') answers the reversed chop with the old numbers."""
+    r = RuleRun(PROP, "C03.CALCULATE-PURE", floor=2, what="Chop.calculate reads only the chop's declared parameters (and the results dict it has just rebuilt): nothing remembered from an earlier call")
+    cls = repo.cls("grading.chop.Chop")
+    fn = repo.find_method(cls, "calculate")
+    r.require(fn is not None, "Chop.calculate vanished")
+    fields = set(cls.class_annotations)
+    me = fn.params[0]
+    first_results_store = min((n.lineno for n in ast.walk(fn.node) if isinstance(n, ast.Assign) and any(isinstance(t, ast.Attribute) and t.attr == "results" and attr_chain(t.value) == me for t in n.targets)), default=None)
+    r.require(first_results_store is not None, "Chop.calculate no longer rebuilds self.results")
+    n = 0
+    for node in ast.walk(fn.node):
+        if isinstance(node, ast.Attribute) and isinstance(node.ctx, ast.Load) and attr_chain(node.value) == me:
+            if node.attr in ("results",):
+                n += 1
+                r.check(node.lineno >= first_results_store, fn, f"results read at line {node.lineno} after being rebuilt", f"Chop.calculate reads self.results (line {node.lineno}) before rebuilding it (line {first_results_store}): the numbers of an earlier call - for another length, or from before invert() - are handed out again", node, key=f"results@{n}")
+                continue
+            if node.attr in fields or isinstance(parent(node), ast.Call) and parent(node).func is node:
+                continue
+            n += 1
+            r.bad(
+                fn,
+                f"Chop.calculate reads self.{node.attr}, which is not a parameter of the chop but something an earlier call left behind: calculate(L); invert(); calculate(L) answers the reversed chop with the "
+                "numbers of the original one (same total expansion instead of the reciprocal)",
+                node,
+                key=f"reads:{node.attr}",
+            )
+    r.ok(fn, f"{len(fields)} declared parameters; attribute reads checked", key="scan")
+    r.require(len(fields) >= 5, "Chop no longer declares its five quantities")
+    return r
+
+
+calculate_pure.rule_id = "C03.CALCULATE-PURE"
+
+
+# --------------------------------------------------------------------------------------------
+def section_ratio(repo: Repo) -> RuleRun:
+    """'parameter sets that cannot be realised on the edge are rejected': a section of a multi-grading takes a fraction of the
+    edge in (0, 1]; it is resolved on length * ratio, so a ratio above 1 resolves the chop on a piece longer than the edge.
+    Abstract run of Grading.add_chop on both sides of both bounds."""
+    r = RuleRun(PROP, "C03.SECTION-RATIO", floor=5, what="Grading.add_chop accepts a length ratio in (0, 1] only")
+    fn = repo.func("grading.grading.Grading.add_chop")
+    gcls = repo.cls("grading.grading.Grading")
+    for ratio, bad in ((0.0, True), (-0.5, True), (1.5, True), (2.0, True), (1.0, False), (0.3, False), (1e-3, False)):
+        g = Obj("grading", cls=gcls)
+        g.set("length", 2.0)
+        g.set("specification", [])
+        chop = Obj("chop", length_ratio=ratio, count=5)
+
+        def hook(ev, call, name):
+            if isinstance(call.func, ast.Attribute) and call.func.attr == "calculate":
+                return (5, Sym("expansion"))
+            return NO_MATCH
+
+        ev = Evaluator(repo=repo, module=fn.module, call_hook=hook)
+        ev.float_arith = True
+        try:
+            ev.call_funcinfo(fn, [g, chop])
+            got = None
+        except Raised as err:
+            got = err.exc_name
+        except NotEvaluable as err:
+            raise AnalysisError(f"Grading.add_chop not evaluable with length_ratio={ratio}: {err}") from err
+        r.check((got is not None) == bad, fn, f"length_ratio {ratio:g}: {'rejected' if got else 'accepted'}", f"Grading.add_chop with length_ratio={ratio:g} is {'rejected with ' + got if got else 'accepted'}; a section takes a fraction in (0, 1] of its edge - with a larger one the chop is resolved on a piece longer than the edge and the requested first / last cell size is not realised", fn.node, key=f"ratio:{ratio:g}")
+    return r
+
+
+section_ratio.rule_id = "C03.SECTION-RATIO"
+
+
+RULES = [registry_agreement, closure, invert_complete, validation_siblings, dimensions, bracket_siblings, unit_ratio_tests, copy_well_posed, no_stale_lazy_cache, reject_not_repair, no_memo, solver_tolerance, no_rounding, ratio_rejection, count_rounds_up, count_integral, shortcut_exact, single_cell, calculate_pure, section_ratio]
